@@ -28,7 +28,9 @@ import (
 const watchdog = 90 * time.Second
 
 func inconclusive(st *stats.Collector, format string, a ...any) {
-	st.Flush()
+	if st != nil {
+		st.Flush()
+	}
 	fmt.Printf("panic: test timed out (harness watchdog, not a verdict): "+format+"\n", a...)
 	os.Exit(3)
 }
